@@ -17,8 +17,8 @@ SHARDS = {"quick": 8, "thorough": 16}
 RULE = ("every Command subclass with every constructor/attribute value in its domain (GetState x 3 temperature types, "
         "GetCapabilities x 2 pages, ToggleDisplay x beep, energy, humidity, GetProperties over all 4096 subsets of the 12 "
         "property ids in several orders, SetProperties over every non-empty subset of the 9 encodable ids with generated "
-        "values, SetState over C10's domain), sequences of 300..700 mixed commands (constructed one by one or all constructed before the first is emitted), and every public AirConditioner operation "
-        "against the model device under generated capability profiles. Oracle: strict independent frame parser (0xAA, length "
+        "values, SetState over C10's domain), one run of 70 000 (quick) / 200 000 (thorough) commands in a single process, sequences of 300..700 mixed commands (constructed one by one or all constructed before the first is emitted), and every public AirConditioner operation "
+        "against the model device under generated capability profiles, optionally with some commands left unanswered (the ids seen on the wire must still chain). Oracle: strict independent frame parser (0xAA, length "
         "byte == len-1, appliance 0xAC, frame type 0x02 for the two write commands else 0x03, body = [documented command id ... "
         "message id, bitwise CRC-8], two's complement checksum), the model's conformance parser accepts the body, message ids "
         "advance by one modulo 256. Non-trivial: variable-length property commands, a sequence that wraps the id, or a device "
@@ -110,7 +110,26 @@ def check_crc(case: dict):
     return None
 
 
+def check_long(case: dict):
+    from msmart.device.AC import command as C
+    prev = None
+    for i in range(case["n"]):
+        cmd = C.GetStateCommand() if i % 3 else C.GetEnergyUsageCommand()
+        f = cmd.tobytes()
+        mid = f[-3]
+        if prev is not None and mid != (prev + 1) % 256:
+            return ("message-id", f"command #{i}: message id {mid} after {prev}")
+        prev = mid
+        if i % 997 == 0:
+            v = verify_frame(f, "get_state" if i % 3 else "energy")
+            if v:
+                return v
+    return None
+
+
 def check_case(case: dict):
+    if case.get("op") == "long":
+        return check_long(case)
     if case.get("op") == "crc":
         return check_crc(case)
     if case.get("op") == "device":
@@ -160,6 +179,17 @@ def check_device(case: dict):
         else:
             m.cap_pages = [(recs, b"")]
         dev = SimDevice(loop, version=2, device_id=3, ac=m)
+        # some commands go unanswered (all their transmissions are lost): the ids of the following commands must still chain
+        unanswered = set(case.get("unanswered", []))
+        seen_frames: list = []
+
+        def on_data(dev_, conn, frame):
+            if not seen_frames or seen_frames[-1] != frame:
+                seen_frames.append(frame)
+            if (len(seen_frames) - 1) in unanswered:
+                return ("drop",)
+            return None
+        dev.on_data = on_data
         net.listen("10.0.0.9", 6444, dev)
         ac = AC(ip="10.0.0.9", port=6444, device_id=3)
         for op in case["ops"]:
@@ -193,10 +223,16 @@ def check_device(case: dict):
     m = res["m"]
     if m.rejected:
         return ("device-rejects", f"model device rejected a frame during {case['ops']}: {m.rejected[0][1]}")
-    ids = m.msg_ids
+    # ids on the wire, one per distinct command (retransmissions of an unanswered command repeat the same frame)
+    ids = []
+    last = None
+    for f in res["tx"]:
+        if f != last:
+            ids.append(f[-3])
+        last = f
     for a, b in zip(ids, ids[1:]):
         if b != (a + 1) % 256:
-            return ("message-id", f"ids on the wire {ids}")
+            return ("message-id", f"ids on the wire {ids} (unanswered commands: {sorted(case.get('unanswered', []))})")
     for f in res["tx"]:
         try:
             rc.frame_parse(f)
@@ -217,6 +253,10 @@ def _stable_key(case) -> int:
 
 
 def _run_one(ctx, case):
+    if case.get("op") == "long":
+        ctx.case(hash(("long", case["n"])), True, cls="long run")
+        ctx.sample("long run", case)
+        return check_long(case)
     if case.get("op") == "crc":
         ctx.case(hash(case["data"]), len(case["data"]) > 2, cls="crc8")
         ctx.sample("crc8", case)
@@ -282,6 +322,11 @@ def run(ctx) -> None:
                 ctx.check(case, lambda c: _run_one(ctx, c))
     ctx.sweep("crc8 over all single bytes and prefixes", k, True)
 
+    # one very long run in a single process: more than 65 536 commands since import
+    if ctx.shard == 0:
+        case = {"op": "long", "n": 70000 if ctx.quick else 200000}
+        ctx.check(case, lambda c: _run_one(ctx, c))
+
     # sequences that wrap the message id
     nseq = 5 if ctx.quick else 100
     for i in range(nseq):
@@ -307,5 +352,6 @@ def run(ctx) -> None:
                                      "props": st.lists(st.sampled_from([0x0009, 0x000A, 0x0039, 0x0048, 0x0043, 0x0042, 0x0018, 0x00E3]), unique=True, max_size=8),
                                      "split": st.integers(0, 3)})
     dev_cases = st.fixed_dictionaries({"op": st.just("device"), "profile": profile, "state": gens.settable_states(),
-                                       "ops": st.lists(st.sampled_from(["refresh", "caps", "apply", "toggle", "clean", "set"]), min_size=1, max_size=8)})
+                                       "ops": st.lists(st.sampled_from(["refresh", "caps", "apply", "toggle", "clean", "set"]), min_size=1, max_size=8)},
+                                      optional={"unanswered": st.lists(st.integers(0, 12), max_size=3, unique=True)})
     ctx.hyp("device-ops", dev_cases, lambda c: _run_one(ctx, c), ctx.n(1600, 64000))
